@@ -426,9 +426,7 @@ def run(ctx: Ctx) -> None:
                 dcases.append(coq_pair(term, d))
                 draw.append(dict(expr=text, cpython=d))
                 if ty is not None and fits(describe(val), got) is False:
-                    via = type(stmts[k].value).__name__
-                    if via == 'Group':
-                        via = type(stmts[k].value.expression).__name__
+                    via, text, got, val = locate_cause(text, header, env)
                     ctx.violation(sig_of(re.sub(r'<.*', '', got), re.sub(r'<.*', '', short(describe(val))), via),
                                   'the inferred type %s of the expression %s (a %s) is not the type %s its value has under CPython' % (got, text, via, short(describe(val))),
                                   dict(input=dict(source=header + '\tx0 = %s\n' % text, symbol='f.x0', entries=[['f', [[v for _, _, v in VARS]]]]), oracle_result=short(describe(val)), impl_result=got))
@@ -490,6 +488,39 @@ def run(ctx: Ctx) -> None:
                                       'the inferred type %s of %s (declared from a %s) is not the type %s its value has at run time' % (inferred, q + '.' + name, via, short(d)),
                                       dict(input=dict(source=p.src, symbol=q + '.' + name, entries=[[e[0], [list(a) for a in e[1]]] for e in p.entries]), oracle_result=short(d), impl_result=inferred))
                         break
+
+
+def infer_one(text, header):
+    """(type string | 'ERR ...', node class of the value) for `x0 = text` inside the eight-variable function"""
+    import tsession
+    from rogw.tranp.semantics.reflections import Reflections
+    sess = tsession.Session({'c03e': header + '\tx0 = %s\n' % text})
+    mod = sess.load('c03e')
+    refl = sess.app.resolve(Reflections)
+    fn = [x for x in mod.entrypoint.statements if type(x).__name__ == 'Function'][0]
+    node = fn.statements[0].value
+    while type(node).__name__ == 'Group':
+        node = node.expression
+    try:
+        return str(refl.type_of(fn.statements[0].value)), type(node).__name__
+    except Exception as e:
+        return 'ERR ' + type(e).__name__, type(node).__name__
+
+
+def locate_cause(text, header, env):
+    """the smallest sub-expression whose inferred type already disagrees with its run-time type: (node class, text, inferred, value)"""
+    import ast
+    subs = sorted({ast.unparse(n) for n in ast.walk(ast.parse(text, mode='eval')) if isinstance(n, ast.expr)}, key=len)
+    for sub in subs:
+        try:
+            val = eval(sub, dict(env))
+            got, via = infer_one(sub, header)
+        except Exception:
+            continue
+        if not got.startswith('ERR') and fits(describe(val), got) is False:
+            return via, sub, got, val
+    got, via = infer_one(text, header)
+    return via, text, got, eval(text, dict(env))
 
 
 # generic signatures with a type variable two levels deep, instantiated twice; library generics over two element types
